@@ -53,6 +53,9 @@ func worker(a []string) {
 	fw := &flushWriter{w: out}
 	w := mon.NewWorker(prop, tier, seed, idx, n, fw)
 	w.From, w.Only = from, only
+	if spec.CaseTimeout != 0 {
+		w.CaseTimeout = spec.CaseTimeout
+	}
 	w.Race = os.Getenv("VERIF_RACE_BUILD") == "1"
 	mon.Install(spec.RaceSafeHooks)
 	spec.Run(w)
@@ -488,7 +491,6 @@ func runWorker(exe, tmp, prop, tier string, seed uint64, idx, nw, only, slot int
 				}
 				res.inconWhy[fmt.Sprint(m["name"], ": ", m["why"])]++
 			case "stuck":
-				res.stuck++
 			case "violation":
 				var v violationRec
 				_ = json.Unmarshal(sc.Bytes(), &v)
@@ -517,6 +519,7 @@ func runWorker(exe, tmp, prop, tier string, seed uint64, idx, nw, only, slot int
 			code = ee.ExitCode()
 		}
 		if code == 4 {
+			res.stuck++
 			// stuck case: inconclusive, continue after it
 			res.notes = append(res.notes, fmt.Sprintf("worker %d: watchdog fired in case %d (inconclusive)", idx, lastStart))
 			saveStuck(errPath, prop, idx, lastStart)
@@ -534,6 +537,10 @@ func runWorker(exe, tmp, prop, tier string, seed uint64, idx, nw, only, slot int
 				Violations: []mon.Violation{{Kind: "crash", Sig: sig, Detail: fmt.Sprintf("worker process died (exit %d) while running case %d:\n%s", code, lastStart, firstLines(es, 40))}}, Stderr: es})
 		}
 		if only >= 0 || lastStart < 0 {
+			return res
+		}
+		if res.stuck+res.crashed >= 3 {
+			res.notes = append(res.notes, fmt.Sprintf("worker %d: giving up after %d stuck/crashed cases (rest of its list not run)", idx, res.stuck+res.crashed))
 			return res
 		}
 		from = lastStart + 1
